@@ -14,6 +14,9 @@ import vocab as V
 from engine import Finding, Result
 
 CFGS = [("csv", "auto"), ("csv", "noauto"), ("mem", "auto"), ("mem", "noauto")]
+# csv.QUOTE_ALL = 1, QUOTE_NONNUMERIC = 2 (JSON-friendly)
+DIALECTS = [{"delimiter": ";"}, {"delimiter": "\t"}, {"quotechar": "'"}, {"quoting": 1},
+            {"delimiter": "|", "quotechar": "'"}, {"doublequote": False, "escapechar": "\\"}]
 
 
 def probes():
@@ -52,12 +55,33 @@ PROFILES = {
 }
 
 
-def gen_history(g, n, csv, w, malformed):
+def bulk_insert(g, n):
+    """one insert_multiple of n points: mostly in time order (the index stays valid), a fifth shuffled"""
+    r = g.r
+    pts = [g.point(time=str(G.T0 + (i if r.random() < 0.8 else r.choice(G.TIME_OFFS)))) for i in range(n)]
+    if r.random() < 0.2:
+        r.shuffle(pts)
+    return ["ins", "~"] + pts
+
+
+def gen_history(g, n, csv, w, malformed, bulk=0):
     r = g.r
     keys = list(w)
     tot = sum(w.values())
     ops = []
+    if bulk:
+        ops.append(bulk_insert(g, bulk))
+    reads = []
     for _ in range(n):
+        if reads and r.random() < 0.06:
+            # an earlier read again, verbatim (answers must follow the writes in between), or with an operand
+            # whose hash() collides with the original one (answers must not be shared)
+            old = r.choice(reads)
+            ops.append(old)
+            tw = g.twin(old)
+            if tw is not None:
+                ops.append(tw)
+            continue
         x = r.random() * tot
         for k in keys:
             x -= w[k]
@@ -67,6 +91,10 @@ def gen_history(g, n, csv, w, malformed):
             ops.append(g.insert_op(bad=r.random() < malformed))
         elif k == "read":
             ops.append(g.read_op())
+            reads.append(ops[-1])
+            tw = g.twin(ops[-1])
+            if tw is not None and r.random() < 0.5:
+                ops.append(tw)
         elif k == "get":
             ops.append(g.getter_op())
         elif k == "rm":
@@ -169,8 +197,20 @@ class Family:
                 # awkward strings (CR/LF, quotes, delimiters, non-ASCII), half of them in a non-default encoding
                 enc = "utf-16" if i % 12 == 0 else None
                 g.hard = True
+            csvkw = None
+            if st == "csv" and (i // 4) % 5 == 2:
+                # a csv dialect other than the default one (the database is opened with these keyword arguments)
+                csvkw = DIALECTS[(i // 20) % len(DIALECTS)]
+            if (i // 4) % 7 == 3:
+                g.wide = True                 # numbers with colliding hashes as values and operands
+            bulk = 0
+            if (i // 4) % 16 == 5:
+                bulk = g.r.randint(9, 48)     # beyond the sizes at which small-set / small-dict behaviour ends
+            elif (i // 4) % 500 == 77:
+                bulk = g.r.randint(520, 1100)  # beyond batch / bulk-path thresholds
             cases.append({"cfg": ["cfg", st, au], **({"enc": enc} if enc else {}),
-                          "ops": gen_history(g, ln, st == "csv", w, 0.08 if self.prop == "C11" else 0.03)})
+                          **({"csvkw": csvkw} if csvkw else {}),
+                          "ops": gen_history(g, ln, st == "csv", w, 0.08 if self.prop == "C11" else 0.03, bulk)})
         return cases
 
     def enumerated(self, depth):
